@@ -8,8 +8,6 @@ package c12
 // stub); numbers stay within exponent-free or two-digit-exponent literals.
 
 import (
-	"bytes"
-	"encoding/json"
 	"strings"
 
 	"verifharness/internal/core"
@@ -475,17 +473,6 @@ func setMember(d doc, key, val string) doc {
 	return append(append(doc{}, d...), member{key, val})
 }
 
-// firstDocThenData tells (with the standard library's decoder, used for sorting cases only)
-// whether a text begins with a complete JSON document followed by something other than whitespace.
-func firstDocThenData(s string) bool {
-	dec := json.NewDecoder(strings.NewReader(s))
-	var v any
-	if err := dec.Decode(&v); err != nil {
-		return false
-	}
-	return len(bytes.TrimSpace([]byte(s[int(dec.InputOffset()):]))) > 0
-}
-
 // fixed corpus: one text per mutation kind and file (parts)
 func textCorpus() []Input {
 	m := func(mut string, parts ...string) Input { return textInput("metrics", mut, parts) }
@@ -577,6 +564,11 @@ func textCorpus() []Input {
 		c("swap-type", `{"convertedObjects":"none"}`),
 		c("swap-type", `{"failedMessage":1}`),
 		c("stray-closer", "}", `{"convertedObjects":[]}`),
+		c("stray-closer", `{"convertedObjects":[]}`, "\n", "]"),
+		c("dup-struct", `{"failedMessage":"no"}}`),
+		c("garbage-after", `{"convertedObjects":[]}`, " garbage"),                  // was accepted before fix 1bbc0df
+		c("garbage-after", `{"convertedObjects":[]}`, `{"failedMessage":"second"}`), // a second object
+		c("garbage-after", `{"failedMessage":"no"}`, "\n", "1"),
 		c("ws-only", "\n"),
 		c("only-closer", "]"),
 		c("null-values", `{"convertedObjects":null,"failedMessage":null}`),
@@ -609,18 +601,7 @@ func genTexts(r *core.Rng, file string, n int, add func(Input, string)) {
 		if file != "metrics" && kind == "bad-rules" {
 			kind = "valid"
 		}
-		var parts []string
-		for try := 0; try < 20; try++ {
-			parts = g.Text(r, kind)
-			if file == "conversion" && !convTrailing && firstDocThenData(strings.Join(parts, "")) {
-				continue // finding "conversion response followed by other data": see C12_Spec.T_conv
-			}
-			break
-		}
-		if file == "conversion" && !convTrailing && firstDocThenData(strings.Join(parts, "")) {
-			parts = g.Text(r, "valid")
-			kind = "valid"
-		}
+		parts := g.Text(r, kind)
 		in := textInput(file, kind, parts)
 		// now and then together with a non-zero exit, a patch or a concurrent execution
 		switch r.Intn(12) {
